@@ -37,7 +37,7 @@ MARK = {
 def cases(draw, isa, archs, kernels):
     name, _, lines = draw(st.sampled_from(kernels))
     instr = [l for l in lines]
-    mode = draw(st.sampled_from(["whole", "whole", "select", "repeat"]))
+    mode = draw(st.sampled_from(["whole", "whole", "select", "select", "repeat", "heavy"]))
     if mode == "select":
         n = draw(st.integers(1, min(12, len(instr))))
         start = draw(st.integers(0, len(instr) - n))
@@ -45,6 +45,15 @@ def cases(draw, isa, archs, kernels):
     elif mode == "repeat":
         k = draw(st.sampled_from([2, 3, 6, 12]))
         body = (instr * k)[:draw(st.sampled_from([40, 99, 101, 130]))]
+    elif mode == "heavy":
+        # one instruction repeated some hundred times: port totals beyond 100 cycles in a narrow column
+        # vector / load / store instructions only: flag-writing integer instructions make OSACA's own dependency
+        # scan quadratic (every flag destination is followed through the whole kernel), a minute per case
+        cands = [l for l in instr if l.strip().startswith(("v",) if isa == "x86" else ("f", "ld", "st"))]
+        if cands:
+            body = [draw(st.sampled_from(cands))] * draw(st.sampled_from([210, 260]))
+        else:
+            body = list(instr)
     else:
         body = list(instr)
     # unknown mnemonics / zero-pressure lines
@@ -209,10 +218,18 @@ def check_case(case):
         raise Violation("arch-warning:" + tag, "no-micro-architecture warning", [rep["warnings"]["arch"],
                         yd["Warnings"]], want_arch_warn)
     if case["arch"] is None:
-        want = "SPR" if isa == "x86" else "V2"
-        if rep["header"].get("Architecture") != want:
-            raise Violation("default-arch:" + tag, "default model of the detected ISA", rep["header"].get(
-                "Architecture"), want)
+        # the ISA is detected from register names: asserted only when the file's register names are unambiguous
+        # (x86 vector registers and no AArch64-looking token, or AArch64 w/x registers and no '%')
+        x86_vec = len(re.findall(r"%[xyz]mm[0-9]", code))
+        a64_tok = len(re.findall(r"[vz][0-9][0-9]?\.[0-9][0-9]?[bhsd]", code)) + len(re.findall(r"[wx][0-9]", code))
+        want = None
+        if isa == "x86" and x86_vec > 0 and a64_tok == 0:
+            want = "SPR"
+        elif isa == "aarch64" and a64_tok > 0 and "%" not in code:
+            want = "V2"
+        got_arch = rep["header"].get("Architecture")
+        if got_arch not in ("SPR", "V2") or (want is not None and got_arch != want):
+            raise Violation("default-arch:" + tag, "default model of the detected ISA", got_arch, want or "SPR|V2")
     n_parsed = len([l for l in code.split("\n") if l.strip()])
     want_len = case["select"] == "unmarked" and n_parsed > 100
     if rep["warnings"]["length"] != want_len or ("LengthWarning" in yd["Warnings"]) != want_len:
@@ -226,6 +243,8 @@ def check_case(case):
         cl.append("unknown-instruction" + ("+ignore" if case["ignore_unknown"] else ""))
     if big:
         cl.append("value>=10")
+    if rep["summary"] and any(c and float(c) >= 100 for c in rep["summary"]["cells"]):
+        cl.append("total>=100")
     if want_len:
         cl.append("length-warning")
     if lcd:
@@ -235,7 +254,7 @@ def check_case(case):
 
 
 def plan(tier, seed):
-    n = {"quick": 18, "thorough": 700}[tier]
+    n = {"quick": 14, "thorough": 700}[tier]
     shards = []
     xa, aa = env.X86_ARCHS, env.A64_ARCHS
     for i in range(16):
